@@ -11,7 +11,8 @@ Hashing and signing are parameters (`H28`, `KeyOps.sign`): no cryptography is ex
 
 namespace Pyc.Witness
 
-/-- keep the first occurrence of every element (a Python `set` / `OrderedSet` built by repeated `add`/`append`) -/
+/-- keep one occurrence of every element (a Python `set` / `OrderedSet` built by repeated `add`/`append`); the
+order of the result carries no meaning: everything proved about it is a membership or a length statement -/
 def dedup {α} [DecidableEq α] : List α → List α
   | [] => []
   | x :: xs => if x ∈ dedup xs then dedup xs else x :: dedup xs
